@@ -36,6 +36,7 @@ def check(m, run):
     n0 = len(run.obs)
     _sd3.bf3(m, run)      # the basis-function routines equal the Cox-de Boor polynomials and their exact derivatives on every span of the enumerated rational knot vectors
     _skel(m, run)
+    single_function_rules(m, run, with_ho2=False)
     sem = run.obs[n0:]
 
     def okp(*prefixes):
@@ -48,7 +49,7 @@ def check(m, run):
     al8(m, run)
     with run.corroborating(okp('OT1'), 'OT1', rules=('HO1.half-open-span',)):
         ho1(m, run)
-    with run.corroborating(okp('OT4', 'BF3'), 'OT4/BF3', rules=('HO2.half-open-support',)):
+    with run.corroborating(okp('OT4', 'BF3', 'BF4'), 'OT4/BF3/BF4', rules=('HO2.half-open-support',)):
         ho2(m, run)
     from .c09 import tol_two_sided
     with run.corroborating(okp('OT2', 'OT1'), 'OT1/OT2', rules=('TOL1.two-sided-tolerance',)):
@@ -609,7 +610,23 @@ def _skel(m, run):
     from .. import skel_drivers
     skel_drivers.c03(m, run)
     skel_drivers.c03_order(m, run)
-    skel_drivers.c03_single(m, run)
+
+
+def single_function_rules(m, run, with_ho2=True):
+    """the single-function routines: basis_function_one is decided by its exact values on one knot vector of every clamped order type, at
+    every knot and between (BF4); the rule that asks for the *literal* 0.0 / 1.0 outside the support and at the ends (OT4, which cannot see
+    through arithmetic) corroborates for it and stays deciding for basis_function_ders_one; HO2 reads the spelling of the tests"""
+    from .. import skel_drivers
+    n0 = len(run.obs)
+    skel_drivers.bf4(m, run)
+    ok = all(o.ok for o in run.obs[n0:])
+    with run.corroborating(ok, 'BF4', only=lambda o: o.key.startswith('helpers.basis_function_one')):
+        skel_drivers.c03_single(m, run)
+    if with_ho2:
+        sel = run.obs[n0:]
+        ok2 = bool(sel) and all(o.ok for o in sel)
+        with run.corroborating(ok2, 'BF4/OT4', rules=('HO2.half-open-support',)):
+            ho2(m, run)
 
 
 def ho2(m, run):
